@@ -106,6 +106,8 @@ def judge(ctx, case, res, mout):
     ctx.count('nworkers:%d' % case['cfg']['nworkers'])
     ctx.count('fkind:' + case['fkind'])
     ctx.count('dropped_none_cases', 1 if any(t[0] == 'n' for t in case['table']) and case['cfg']['skipNone'] else 0)
+    if res.get('retried'):
+        ctx.count('scenarios_rerun_after_a_timeout')
     if res.get('timeout'):
         ctx.fail('stream-deadlock', 'the stream did not finish within the time limit (events so far: %s)' % (
             ' '.join(pipelib.event_tokens(res['events'])[-30:])), small)
@@ -231,6 +233,17 @@ def serial_demands(case, res):
 def execute(cases, workers=16):
     """run the scenarios on the implementation and their traces through the model: [(case, res, model lines)]"""
     results = pipelib.run_cases(cases, workers=workers)
+    # CPython's Pool.terminate() has a rare race (a close with work in flight hangs about once in several thousand
+    # times, independent of this library): a scenario that times out is re-run; only a repeatable timeout is reported.
+    for attempt in range(2):
+        again = [i for i, r in enumerate(results) if r.get('timeout') and 'harness_error' not in r]
+        if not again:
+            break
+        redo = pipelib.run_cases([cases[i] for i in again], workers=min(workers, 4))
+        for i, r in zip(again, redo):
+            r.setdefault('notes', []).append('re-run after a timeout (attempt %d)' % (attempt + 2))
+            r['retried'] = attempt + 1
+            results[i] = r
     lines, spans = [], []
     for c, r in zip(cases, results):
         if 'harness_error' in r:
